@@ -38,6 +38,21 @@ CHECKS = {
    ref="DESIGN.md §4 C19"),
 }
 
+CHECKS.update({
+ "C10": dict(tech="exhaustive enumeration of the configuration space (seed x depth x generator history x pool size) against reference perft",
+   text="Every combination of 15 seeds (the published perft suite plus targeted ones), depth 0..D, generator history {brand-new, served smaller depths, served all earlier seeds} and rayon pool size {1,2,4,16} is executed on the real count_positions and compared with the perft sums of the reference model (itself checked against the published tables and the figures quoted in the property).",
+   ref="DESIGN.md §4 C10", note="Trusted base: refchess perft (validated on published tables). Bounded by depth per seed; CLI output is covered in the thorough tier only."),
+ "C11": dict(tech="complete enumeration of square x occupancy for every slider / leaper through the public attack query",
+   text="For every square and every subset of the full rook / bishop rays (edge squares included, a superset of the 102,400 + 5,248 relevant-mask cases) times 3 off-ray noise patterns, for queens on the rook and bishop products with the other ray set empty / full, and for knights and kings with every subset of enemy pieces on their targets, the real get_attack_targets answer is compared with a ray walk; union semantics with friendly blockers are compared on every walked position.",
+   ref="DESIGN.md §4 C11", note="Only the magic constants drawn by this build are examined (thorough rebuilds further draws). No answer can come from the attack cache (generator renewed on any key repeat)."),
+ "C16": dict(tech="explicit-state search over (position, half-move clock) with live boards + boundary-preloaded tree walks, step-local clock oracle",
+   text="Every transition of the tree-seed walk, of walks from boards preloaded with half-move clocks 47..101 and ply counts 0..511, and of a BFS/DFS to fixpoint over (position, half-move clock <= 104) on closed locked-pawn graphs (games up to 311 plies) is executed on the real board; the clock step, its undo and the draw verdict (clock >= 100) are compared with the rule in every state.",
+   ref="DESIGN.md §4 C16", note="Mated/stalemated states at clock >= 100 are not judged. Overflow checks are on in the harness build so a wrap aborts and is reported."),
+ "C18": dict(tech="complete enumeration of the evaluation's table domain, of walked positions, of the material lattice extremes and of terminal position x remaining depth",
+   text="Every piece-square cell in both contexts and both colours, every walked position against its colour-swapped rotated image, every legal one-side material vector at best squares against a minimal opponent, and every collected mated / stalemated position at remaining depth 0..255 are evaluated on the real functions.",
+   ref="DESIGN.md §4 C18", note="Extreme boards place pieces greedily on the best cells read black-box from the table part."),
+})
+
 NOT_YET = {}
 
 def main():
